@@ -184,6 +184,33 @@ def run_models(ctx):
                     ctx.violation('binned-restricted-differs:' + gk,
                                   'binning the restricted run differs from binning the full run although the width condition holds',
                                   dict(case, widths=widths), dict(maxdiff=float(d2.max()), band=band))
+        # ---- a sequence of restricted runs on the SAME model object: equal-length windows at different places
+        # (every likelihood evaluation of a retrieval re-uses the model; anything cached per grid *length* shows here)
+        m = int(ctx.rng.integers(4, max(5, len(nat) // 3)))
+        starts = [int(x) for x in ctx.rng.choice(np.arange(1, len(nat) - m - 1), size=3, replace=True)]
+        for s0 in starts:
+            g2 = nat[s0:s0 + m].copy()
+            rn, rv, rt, _ = model.model(wngrid=g2, cutoff_grid=True)
+            rn = np.asarray(rn)
+            idx = np.searchsorted(nat, rn)
+            if not np.all(nat[np.minimum(idx, len(nat) - 1)] == rn):
+                ctx.violation('restricted-grid-not-native-points', 'restricted run returned points that are not native points',
+                              dict(base, request='window-sequence', req=g2))
+                continue
+            diff = np.abs(np.asarray(rv) - np.asarray(full)[idx])
+            ctx.disagreements_checked += 1
+            ctx.bucket('%s:window-sequence:%s' % (kind, regime))
+            if np.any(diff > band + tiny):
+                ctx.violation('restricted-differs:sequence:' + kind,
+                              'a restricted run following another restricted run on the same model differs from the full run '
+                              '(beyond the licensed cut-off band)', dict(base, request='window-sequence', req=g2, starts=starts),
+                              dict(maxdiff=float(diff.max()), band=band))
+                break
+        # and the full run again afterwards must reproduce the first full run
+        nat2, full2, _, _ = model.model()
+        ctx.disagreements_checked += 1
+        if not (np.array_equal(nat2, nat) and C.close(list(full2), list(full), rel=1e-12)):
+            ctx.violation('full-run-not-reproducible', 'the native run changed after restricted runs on the same model', base)
         # malformed: condition violated — recorded only
         o = obs_grid(ctx.rng, nat, ok=False)
         if o is not None:
